@@ -984,8 +984,8 @@ pub fn replay_format(cases: &str, trace: &str, summary: &str, tier: &str) {
             // the deep (depth 3) trees of the thorough tier are many: they get the quick plan, the thorough extras
             // (all 36 option combinations, every gap, line-break layouts) go to the trees of depth <= 2
             let deep = c["d"].as_u64().unwrap_or(0) >= 3;
-            if deep && (idx as u64).wrapping_mul(0x9E37_79B9_7F4A_7C15).wrapping_add(seed) % 5 != 0 {
-                // 363 000 depth-3 trees: a seeded fifth of them is replayed (every one is still printed and checked by TLC)
+            if deep && (idx as u64).wrapping_mul(0x9E37_79B9_7F4A_7C15).wrapping_add(seed) % 10 != 0 {
+                // 660 000 depth-3 trees: a seeded tenth of them is replayed (every one is still printed and checked by TLC)
                 return (Tally::default(), vec![], json!({"ev": "tree", "id": idx, "template": true, "grammar": true, "runs": 1, "skipped": true}));
             }
             let opts = if deep { &opts_quick } else { &opts_full };
